@@ -28,6 +28,9 @@ type Impl struct {
 	InSlow, MaxInSlow int
 }
 
+// InitialLevel is the value of the level property after activation.
+const InitialLevel = 1
+
 // New returns a fresh implementation.
 func New(name string) *Impl {
 	return &Impl{Name: name, Calls: map[string]int{}}
@@ -51,7 +54,8 @@ func (p *Impl) Activate(activation bus.Activation, helper ProbeSignalHelper) err
 	p.Act = activation
 	p.Helper = helper
 	p.Activated++
-	return nil
+	// the property starts at InitialLevel
+	return helper.UpdateLevel(InitialLevel)
 }
 
 func (p *Impl) OnTerminate() { p.Terminated++ }
